@@ -11,7 +11,7 @@ def expectedC12 : List (String × String) := [
   ("file:comparison.py", "c46d05a1308c92ce"),
   ("file:compat.py", "2a259e16acd200bc"),
   ("file:config.py", "142bde514c82c29d"),
-  ("file:transform/basics.py", "ef1ded632cafe787"),
+  ("file:transform/basics.py", "093d71f68c43a00a"),
   ("file:transform/conversions.py", "c717da0d8eb0ba94"),
   ("file:transform/fills.py", "dd9addc453365c1c"),
   ("file:transform/headers.py", "b170f0cc5a1c0354"),
@@ -27,7 +27,7 @@ def expectedC12 : List (String × String) := [
   ("transform.basics.CatView", "b1bcf802eb1634d3"),
   ("transform.basics.CutOutView", "ee421b9f0943ec7c"),
   ("transform.basics.CutView", "2a867b8144a190ab"),
-  ("transform.basics.MoveFieldView", "faf9d612466cd19b"),
+  ("transform.basics.MoveFieldView", "e1c4e305c35abc12"),
   ("transform.basics.StackView", "b846bfc3b89a18eb"),
   ("transform.basics.iteraddcolumn", "59f86fc347c271ef"),
   ("transform.basics.iteraddfield", "56c943453c7a55a0"),
